@@ -7,6 +7,8 @@ REGISTRY = {
     "C04": {"harnesses": ["harness.hrx"], "level": "model_checking"},
     "C05": {"harnesses": ["harness.hrx"], "level": "model_checking"},
     "C14": {"harnesses": ["harness.hrx"], "level": "model_checking"},
+    "C06": {"harnesses": ["harness.hrx", "harness.h07"], "level": "model_checking"},
+    "C07": {"harnesses": ["harness.h07"], "level": "other"},
     "C09": {"harnesses": ["harness.h09"], "level": "other"},
     "C10": {"harnesses": ["harness.h10"], "level": "other"},
 }
